@@ -847,6 +847,10 @@ func (c *Conn) maxPayloadSizeForWrite(typ recordType) int {
 		case aead:
 			maxPayload -= ciph.Overhead()
 		case cbcMode:
+			// 载荷 + MAC + 至少 1 字节填充需对齐到分组长度，
+			// 否则记录会比 PMTU 多出最多一个分组。
+			blockSize := ciph.BlockSize()
+			maxPayload = (maxPayload &^ (blockSize - 1)) - 1
 			maxPayload -= c.out.mac.Size()
 		}
 	}
